@@ -866,7 +866,11 @@ impl FileStateMachine {
     /// WAL is the primary crash-safety path; checkpoint bounds recovery replay time.
     pub(crate) async fn checkpoint(&self) -> Result<(), Error> {
         self.persist_data_async().await?;
+        #[cfg(deventlab_d_engine_verif)]
+        verif_kv_points::hit("file.ckpt.after_data");
         self.persist_metadata_async().await?;
+        #[cfg(deventlab_d_engine_verif)]
+        verif_kv_points::hit("file.ckpt.after_meta");
         self.clear_wal_async().await?;
 
         self.wal_entries_since_checkpoint.store(0, Ordering::Relaxed);
@@ -1179,6 +1183,8 @@ impl StateMachine for FileStateMachine {
             file.write_all(&wal_buf).await?;
             file.flush().await?;
         }
+        #[cfg(deventlab_d_engine_verif)]
+        verif_kv_points::hit("file.apply.after_wal");
 
         // PHASE 3: Fast in-memory updates with minimal lock time
         // (CAS uses pre-computed outcomes — no re-evaluation under write lock)
@@ -1235,6 +1241,8 @@ impl StateMachine for FileStateMachine {
                 }
             }
         } // Lock released immediately - no awaits inside!
+        #[cfg(deventlab_d_engine_verif)]
+        verif_kv_points::hit("file.apply.after_mem");
 
         // PHASE 4: Update last applied index and conditionally checkpoint.
         // WAL (written in PHASE 2) is the primary crash-safety path.
@@ -1243,6 +1251,8 @@ impl StateMachine for FileStateMachine {
             debug!("State machine - updated last_applied: {:?}", log_id);
             self.update_last_applied(log_id);
         }
+        #[cfg(deventlab_d_engine_verif)]
+        verif_kv_points::hit("file.apply.after_applied");
 
         self.wal_entries_since_checkpoint.fetch_add(chunk_len as u64, Ordering::Relaxed);
 
@@ -1596,5 +1606,41 @@ impl StateMachine for FileStateMachine {
         // apply_chunk holds the write lock; parking_lot RwLock ensures they don't interleave.
         let data = self.data.read();
         Ok(keys.iter().map(|k| data.get(k).map(|(v, _)| v.clone())).collect())
+    }
+}
+
+/// Verification scheduling / crash points. Compiled only with `--cfg deventlab_d_engine_verif`.
+///
+/// A checker installs a per-thread callback; the state machines call `hit(<site>)` at the named
+/// points between their write steps (no lock is held there). Without a callback `hit` is a no-op.
+#[cfg(deventlab_d_engine_verif)]
+#[doc(hidden)]
+pub mod verif_kv_points {
+    use std::cell::RefCell;
+
+    type Callback = Box<dyn FnMut(&'static str)>;
+
+    thread_local! {
+        static CALLBACK: RefCell<Option<Callback>> = const { RefCell::new(None) };
+    }
+
+    /// Installs (or removes) the callback of the calling thread.
+    pub fn set(cb: Option<Callback>) {
+        CALLBACK.with(|c| *c.borrow_mut() = cb);
+    }
+
+    /// Called by the state machines. The callback is taken out while it runs, so points reached
+    /// from inside the callback (it may call back into the state machine) are no-ops.
+    pub fn hit(site: &'static str) {
+        let cb = CALLBACK.with(|c| c.borrow_mut().take());
+        if let Some(mut f) = cb {
+            f(site);
+            CALLBACK.with(|c| {
+                let mut slot = c.borrow_mut();
+                if slot.is_none() {
+                    *slot = Some(f);
+                }
+            });
+        }
     }
 }
